@@ -11,7 +11,7 @@ underscores and digits.
 """
 import os
 
-NAMES = ['pkg', 'sub', 'mod', 'util_x', 'a1', 'data_2', 'core', 'x']
+NAMES = ['pkg', 'sub', 'mod', 'util_x', 'a1', 'data_2', 'core', 'x', 'test__init__', 'run__main__']
 
 
 def gen_tree(D, suffix, max_depth=3, max_children=4):
